@@ -344,7 +344,7 @@ def lr_groups(seed, n, gi0=1, pure=False):
 
 # ---- C07: shapes around rule references ---------------------------------------------------------
 C07_SHAPES = ["X", "eX", "e?X", "(eX)*a", "&Xe", "!Xe", "X/e", "e/X", "l:X", "X{}", "&{t}X", "#{}X", "''X", "[^]X", "[]X",
-              "(eX)?a", "X+", "&{f}X", "aX", "X//e", "e//X", "(e/'')X", "&(eX)a", "l:(e?)X{}", "!{f}X", "e/(e?e?)X", "e/(''/a?)X", "(&a/(e? ''))X"]
+              "(eX)?a", "X+", "&{f}X", "aX", "X//e", "e//X", "(e/'')X", "&(eX)a", "l:(e?)X{}", "!{f}X", "e/(e?e?)X", "e/(''/a?)X", "(&a/(e? ''))X", "e+X", "(e?)+X", "(e*)*X"]
 C07_E = ["a", "a?", "''", "[ab]", "a*", "&a", "!a"]
 
 
@@ -421,6 +421,12 @@ def c07_body(g, shape, x, e):
         return g.choice([E(), g.seq([g.choice([g.lit([]), g.un("opt", a())]), X()])])
     if s == "(&a/(e? ''))X":
         return g.seq([g.choice([g.un("and", a()), g.seq([g.un("opt", E()), g.lit([])])]), X()])
+    if s == "e+X":
+        return g.seq([g.un("plus", E()), X()])
+    if s == "(e?)+X":
+        return g.seq([g.un("plus", g.un("opt", E())), X()])
+    if s == "(e*)*X":
+        return g.seq([g.un("star", g.un("star", E())), X()])
     if s == "l:(e?)X{}":
         return g.action(g.seq([g.label(g.un("opt", E())), X()]))
     raise ValueError(s)
